@@ -4,7 +4,7 @@ from vlib import build, lean
 from translate import operators
 from props import _funcs as F
 
-MODS = ["PrimitivModel.Props.C04"]
+MODS = ["PrimitivModel.Props.C04", "PrimitivModel.Props.C04.Split"]
 
 
 def table_diagnostics():
@@ -123,7 +123,7 @@ def run_pinned(chk):
         "values are compared Node-vs-Tensor inside the harness (both computed by the real library), not against the model",
     ]
     chk.stated_not_proved += [
-        "Api.shape_sound_full: for every function and all argument shapes FWD_SHAPE(op_f) = ok s <-> the Tensor path returns shape s (proved only as equality of shape-rule expressions for single-kernel operators; the composite operators Split, BatchSplit, SoftmaxCrossEntropy, SparseSoftmaxCrossEntropy and all concrete shapes are covered by the correspondence run)",
+        "Api.shape_sound_full: for every function and all argument shapes FWD_SHAPE(op_f) = ok s <-> the Tensor path returns shape s (proved: equality of shape-rule expressions for the single-kernel operators — Api.shape_rule_consistent —, and for all canonical shapes the composite operators Split and BatchSplit — Api.split_shape_sound_partial, Api.split_rejects_iff, Api.batch_split_shape_sound_partial; SoftmaxCrossEntropy, SparseSoftmaxCrossEntropy and the composite functions are covered by the correspondence run only)",
     ]
     chk.notes.append("Graph.lazy_eq_eager (values): not stated in Lean — values are not modelled; Api.same_kernel shows that every FORWARD rule runs "
                      "the kernels of the Tensor function on the same arguments, the harness compares the values of both APIs bit for bit on every generated program")
